@@ -111,6 +111,8 @@ class Gen:
             return ["setg"]
         if k < 60:
             return ["evg", self.id()]
+        if k < 64 and ctx.get("clocals"):
+            return ["cinc", self.id(), r.choice(ctx["clocals"])]
         if k < 68 and ctx["locals"]:
             return ["setl", r.choice(ctx["locals"])]
         if k < 80 and ctx["locals"]:
@@ -201,10 +203,13 @@ class Gen:
                 return self.simple(ctx)
             v = self.id()
             c_b = dict(ctx)
-            c_b["l_locals"] = ctx["l_locals"] + 1
+            captured = r.chance(0.4)
+            c_b["l_locals"] = ctx["l_locals"] + (2 if captured else 1)
             c_b["locals"] = ctx["locals"] + [v]
+            if captured:
+                c_b["clocals"] = ctx.get("clocals", []) + [v]
             inner = self.block(depth + 1, c_b, budget)
-            return ["local", v, inner]
+            return ["clocal" if captured else "local", v, inner]
         if k < 96:
             return self.ret(ctx)
         return self.brk(ctx)
@@ -367,6 +372,18 @@ def render_all(ir):
             block(st[2], ind + 1, dict(env, locals=env["locals"] + [st[1]]))
             emit('print(("ev", %d, l%d));' % (st[1], st[1]), ind + 1)
             emit("}", ind)
+        elif k == "clocal":
+            # a local captured by a (non-escaping) closure: the variable is an open captured variable on the stack
+            emit("{", ind)
+            emit("var l%d = %d;" % (st[1], st[1] * 7), ind + 1)
+            emit("var inc%d = || { l%d = l%d + 1; return l%d; };" % (st[1], st[1], st[1], st[1]), ind + 1)
+            block(st[2], ind + 1, dict(env, locals=env["locals"] + [st[1]], clocals=env.get("clocals", []) + [st[1]]))
+            emit('print(("ev", %d, l%d, inc%d()));' % (st[1], st[1], st[1]), ind + 1)
+            emit("}", ind)
+        elif k == "cinc":
+            if st[2] not in env.get("clocals", []):
+                raise RenderError("captured local not visible")
+            emit('print(("ev", %d, inc%d()));' % (st[1], st[2]), ind)
         elif k == "setl":
             if st[1] not in env["locals"]:
                 raise RenderError("local not visible")
@@ -471,7 +488,7 @@ def check_loops(ir):
             elif k == "if":
                 walk(st[1], in_loop)
                 walk(st[2], in_loop)
-            elif k == "local":
+            elif k in ("local", "clocal"):
                 walk(st[2], in_loop)
     walk(ir["main"], False)
     for f in ir["funcs"]:
@@ -616,6 +633,18 @@ def model(ir, tape, faults):
             env2["locals"][st[1]] = cell
             block(st[2], env2)
             ev.append([num(st[1]), num(cell[0])])
+        elif k == "clocal":
+            env2 = dict(env)
+            env2["locals"] = dict(env["locals"])
+            cell = [st[1] * 7]
+            env2["locals"][st[1]] = cell
+            block(st[2], env2)
+            ev.append([num(st[1]), num(cell[0]), num(cell[0] + 1)])
+            cell[0] += 1
+        elif k == "cinc":
+            probes.inc("captured_local_bumped")
+            env["locals"][st[2]][0] += 1
+            ev.append([num(st[1]), num(env["locals"][st[2]][0])])
         elif k == "setg":
             G[env["mod"]][0] += 1
         elif k == "evg":
@@ -957,7 +986,7 @@ def blocks_of(st):
         return [3]
     if k == "if":
         return [1, 2]
-    if k == "local":
+    if k in ("local", "clocal"):
         return [2]
     return []
 
